@@ -23,7 +23,7 @@ def main():
             continue
         m = json.load(open(os.path.join(d, "meta.json")))
         ev = m.get("evaluation", {})
-        prop = m["property"]
+        prop = m.get("decided_by", m["property"])
         kinds = ", ".join(ev.get("checks", {}).get(prop, {}).get("kinds", []))
         clean = lambda s, n: re.sub(r"\s+", " ", s).replace("|", "/")[:n]
         status = "" if ev.get("caught") else "**NOT CAUGHT** "
